@@ -157,6 +157,7 @@ func (w *World) deliver(p *core.Pending) {
 		w.mu.Lock()
 		ar.p.inCall = true
 		ar.p.callStart = w.step
+		ar.p.curAtCallStart = ar.p.curNum
 		w.mu.Unlock()
 		w.logf("step %s", ar.p.key)
 		w.sched.Release(p, nil)
